@@ -210,7 +210,7 @@ def check(ctx):
     share(ctx, 'C10', 'R7/C10.', ['R1.draws_per_call'])
     share(ctx, 'C17', 'R7/C17.', ['R4.unit_interval', 'R1.same_map_object', 'R1.same_objects'])
     # MPI: the calls of an iteration are split over the ranks of the communicator that is reduced over
-    share(ctx, 'C04', 'R6/C04.', ['R8.'])
+    share(ctx, 'C04', 'R6/C04.', ['R8.', 'R5.'])
     # the estimate averages over ALL calls: the counts handed to the result are the roles the result expects
     share(ctx, 'C02', 'R8/C02.', ['R5.'])
 
